@@ -145,7 +145,7 @@ pub fn run_case(line: &str) -> String {
             };
             format!("b={b} ; o={o}")
         }
-        "dec2" | "decb2" | "dect2" | "deca2" | "decf2" => {
+        "dec2" | "decb2" | "dect2" | "deca2" | "decf2" | "decr2" | "decc2" | "decg2" => {
             // C02: run the entry point on a 2 MiB stack (tokio worker default) and measure allocation requests
             let h = rest.split_whitespace().next().unwrap_or(".").to_string();
             let data = unhex(&h);
@@ -172,6 +172,19 @@ pub fn run_case(line: &str) -> String {
                             Err(e) => format!("err {}", dkind(&e)),
                         }
                     }
+                    "decr2" => match erltf::decoder::decode_raw_term(if data.is_empty() { &data } else { &data[1..] }) {
+                        Ok(_) => "ok".to_string(),
+                        Err(e) => format!("err {}", dkind(&e)),
+                    },
+                    "decc2" => match erltf::decoder::decode_with_cache(&data) {
+                        Ok((_, None)) => "ok".to_string(),
+                        Ok((_, Some((_, r)))) => format!("ok rest={}", r.len()),
+                        Err(e) => format!("err {}", dkind(&e)),
+                    },
+                    "decg2" => match erltf::decoder::decode_fragment_cont(&data) {
+                        Ok(((s, f), r)) => format!("ok {} {} rest={}", s, f, r.len()),
+                        Err(e) => format!("err {}", dkind(&e)),
+                    },
                     _ => match erltf::decoder::decode_fragment_header(&data) {
                         Ok((hd, r)) => format!("ok {} {} {} rest={}", hd.sequence_id, hd.fragment_id, hd.num_atom_cache_refs, r.len()),
                         Err(e) => format!("err {}", dkind(&e)),
